@@ -460,6 +460,13 @@ def cases(quick, seed):
         'group User by .c, .age',
         'select (group User by .c) { key: { c }, n := count(.elements) }',
         'select User.<owner[is Bot] { name }',
+        'select User { bl := .<friends[is Object] }',
+        'select User { bl := .<best[is Named] { name } }',
+        'select (User union Bot)[is Named] { name }',
+        'select ((User union Bot) union User.friends) { name }',
+        'select User { o := .<owner }',
+        'select User.<friends',
+
         'select User { bots := .<owner[is Bot] { name, c } }',
         'select UA', 'select UA { n }', 'select UA { name, n }',
         'select User { multi x := .name, required y := .age ?? 0 }',
